@@ -1,4 +1,4 @@
-(* Properties_C01.v — C01: written configurations read back as the same configuration.  PARTIAL.
+(* Properties_C01.v — C01: written configurations read back as the same configuration.  PARTIAL (second write).
    Theorems only (proofs in ClassCheck.v, ClassCert.v, RoundFacts.v, LexRound.v, WriterFacts.v).
 
    What is proved, for all values (no bound on magnitudes, lengths or contents):
@@ -18,14 +18,16 @@
    (5) runs of such steps are what lex_buf does with the fuel lex_depth provides (C01_steps_are_lex_buf);
    (6) assembled over the whole tree: the scanner reads the text of config_write, for every writable tree and
        every option vector, as exactly the token stream of its pieces (C01_written_text_tokens).
-   What is NOT proved: the parser half - that this token stream is parsed back into an equivalent tree - and
-   hence the final "config_read_string (config_write c) is equivalent to c and writes the same text".  That statement is checked on every run of the
+   (7) the parser accepts that token stream and rebuilds the tree: C01_read_written is the first half of the
+       property as a theorem - config_read_string (config_write c) succeeds and yields the equivalent configuration.
+   What is NOT proved: that writing the re-read configuration reproduces the same text (it needs the stability of
+   each float under render-read-render, which is false for the classes F1c and is evaluated, not proved).  That statement is checked on every run of the
    C01 check on the real library (rtrip) and between model and library.  Known findings (known_findings.json):
    F1/F1b/F1c (float renderings), F2 (keyword-named members: the hypothesis of C01_lex_name), F3 (nesting). *)
 From Coq Require Import List ZArith NArith Bool.
 Import ListNotations.
 From LC Require Import Base BaseFacts Tree Fp Api ScanAction FlexEngine Tokens Lexer Reader Regex RegexFacts Bisim
-  ScannerSpec ScannerCert ClassCheck ClassCert LiteralFacts RoundFacts LexRound LexWrite Writer WriterFacts.
+  ScannerSpec ScannerCert ClassCheck ClassCert LiteralFacts RoundFacts LexRound LexWrite ParseWrite Parser Writer WriterFacts.
 From LC.gen Require Import Consts ScannerTables.
 Local Open Scope Z_scope.
 
@@ -165,9 +167,9 @@ Print Assumptions C01_steps_are_lex_buf.
    combination of options, tab width, precision and default format (c is arbitrary), the token stream the
    parser receives for the text of config_write is exactly the tokens of the pieces, followed by end of input:
    nothing is merged, split, lost or misread anywhere in the text ---- *)
-Theorem C01_written_text_tokens : forall fmt_double atof FS c kids f h l fi,
+Theorem C01_written_text_tokens : forall fmt_double atof FS c c2 kids f h l fi,
   c_root c = Setting None PGroup kids f h l fi -> kids <> [] -> writable fmt_double atof c (c_root c) ->
-  exists toks, lex_top atof FS c None (config_write fmt_double c) = (toks, StopEOB) /\
+  exists toks, lex_top atof FS c2 None (config_write fmt_double c) = (toks, StopEOB) /\
                map lt_tok toks = flat_map (piece_tok fmt_double atof c) (pieces c (c_root c) 0) ++ [TkEOF].
 Proof. exact lex_top_written. Qed.
 Print Assumptions C01_written_text_tokens.
@@ -178,6 +180,32 @@ Theorem C01_pieces_chain : forall fmt_double atof c s, writable fmt_double atof 
     chained fmt_double c (pieces c s depth) (d :: rest) /\ Forall (piece_wf fmt_double atof c) (pieces c s depth).
 Proof. exact writable_chain. Qed.
 Print Assumptions C01_pieces_chain.
+
+
+(* ---- (7) the round trip: reading the written text succeeds and yields the equivalent configuration ----
+   For every configuration c whose tree is writable (see (6)) and has the shape the API maintains (pstruct:
+   arrays of scalars of one type, members with valid pairwise distinct names), with bracket nesting within the
+   parser's stack (NEST_LIMIT), for every option/tab/precision/default-format setting of c, every reading
+   configuration c2 (any options, include directory, include function) and every file system:
+   config_read_string(c2, config_write(c)) returns CONFIG_TRUE and the tree it builds is, up to hooks and source
+   positions (obs), the tree nobs describes: same nesting, same member names in the same order, same types, the
+   same integer values with the effective format (hex stays hex), booleans by truth value, strings byte for byte
+   (NULL as the empty string), and each float the strtod of its printf-style rendering. *)
+Theorem C01_read_written : forall fmt_double atof FS c c2 kids f h l fi,
+  c_root c = Setting None PGroup kids f h l fi -> kids <> [] ->
+  writable fmt_double atof c (c_root c) -> pstruct (c_root c) ->
+  nest_of (flat_map (piece_tok fmt_double atof c) (pieces c (c_root c) 0) ++ [TkEOF]) 0 0 <= NEST_LIMIT ->
+  let r := config_read atof FS c2 None (config_write fmt_double c) in
+  rd_out_ r = RdOk /\
+  obs (c_root (rd_cfg r)) = ON None PGroup 0 (map (fun m => nobs fmt_double atof c (s_name m) m) kids).
+Proof. exact read_written. Qed.
+Print Assumptions C01_read_written.
+
+(* the parser on the token stream of the pieces, in any state of the parent it is parsed into *)
+Theorem C01_parser_accepts_written : forall fmt_double atof c overrides v,
+  writable fmt_double atof c v -> pstruct v -> val_ok fmt_double atof c overrides v.
+Proof. exact val_ok_all. Qed.
+Print Assumptions C01_parser_accepts_written.
 
 (* non-vacuity: a string with a quote, a backslash, a newline, a control byte and a high byte, evaluated on the
    model: the scanner returns exactly that string *)
